@@ -51,14 +51,15 @@ VARIABLES
     nextId,   \* next block id
     order,    \* live block ids in allocation order (a reallocated block counts as newly allocated); its last element is
               \* "the most recent live allocation" (history label for C13)
+    parts,    \* ids of live blocks that are split-off parts of an allocation (C16)
     last,     \* id of the most recent allocation if nothing moved the position since, else 0 (history label for C13)
     fails,    \* number of base allocator failures injected so far
     dropped,  \* TRUE after DropArena
     nops,     \* number of operations so far
     hist      \* history of steps (outside the VIEW): what the replayer executes and what the model expects
 
-vars == <<cfg, base, chunks, cur, ma, frames, blocks, cps, nextId, order, last, fails, dropped, nops, hist>>
-view == <<cfg, base, chunks, cur, ma, frames, blocks, cps, order, last, fails, dropped>>
+vars == <<cfg, base, chunks, cur, ma, frames, blocks, cps, nextId, order, parts, last, fails, dropped, nops, hist>>
+view == <<cfg, base, chunks, cur, ma, frames, blocks, cps, order, parts, last, fails, dropped>>
 
 (***************************************************************************)
 (* Base allocator (specified environment): bump through a region, never    *)
@@ -306,6 +307,8 @@ SelectIds(sq, S) == SelectSeq(sq, LAMBDA x : x \in S)
 Without(sq, id) == SelectSeq(sq, LAMBDA x : x # id)
 \* the most recent live allocation that owns at least one byte (empty blocks do not occupy the arena)
 Top(sq) == LET nz == SelectSeq(sq, LAMBDA x : blocks[x].sz > 0) IN IF nz = <<>> THEN 0 ELSE nz[Len(nz)]
+AddSibling(S, id, nid) == IF id \in S THEN S \cup {nid} ELSE S
+CpsAddSibling(cs, id, nid) == [k \in 1..Len(cs) |-> [cs[k] EXCEPT !.live = AddSibling(cs[k].live, id, nid)]]
 StripCps(cs, id) == [k \in 1..Len(cs) |-> [cs[k] EXCEPT !.live = @ \ {id}]]
 ForgetInFrames(id) == [i \in 1..Len(frames) |-> [frames[i] EXCEPT !.live = @ \ {id}, !.cps = StripCps(@, id)]]
 
@@ -318,6 +321,7 @@ Exp(res, addr, extra) ==
      allocated |-> StatAllocated(chunks', cur'), count |-> StatCount(chunks', cur'),
      nchunks |-> Len(chunks'), live |-> DOMAIN blocks', ma |-> ma', x |-> extra,
      fails |-> fails',                                                       \* injected failures so far
+     nparts |-> Cardinality(parts'),                                         \* live split-off parts
      inaligned |-> \E i \in 1..Len(frames') : frames'[i].kind \in {"aligned", "saligned"},
      inclaim |-> \E i \in 1..Len(frames') : frames'[i].kind = "claim",
      inprep |-> Len(frames') > 0 /\ frames'[Len(frames')].kind = "prep"]
@@ -339,7 +343,7 @@ CtorSize(c, k) ==
 InitWith(c, k) ==
     /\ cfg = c
     /\ ma = c.ma
-    /\ frames = <<>> /\ blocks = <<>> /\ cps = <<>> /\ nextId = 1 /\ order = <<>> /\ last = 0 /\ fails = 0 /\ dropped = FALSE /\ nops = 0
+    /\ frames = <<>> /\ blocks = <<>> /\ cps = <<>> /\ nextId = 1 /\ order = <<>> /\ parts = {} /\ last = 0 /\ fails = 0 /\ dropped = FALSE /\ nops = 0
     /\ IF k.k = "unallocated"
        THEN /\ ~c.ga
             /\ base = [next |-> 65536, grants |-> <<>>] /\ chunks = <<>> /\ cur = 0
@@ -350,7 +354,7 @@ InitWith(c, k) ==
     /\ hist = <<[a |-> "ctor", args |-> k,
                  exp |-> [res |-> "ok", addr |-> 0, cur |-> cur, pos |-> IF cur = 0 THEN 0 ELSE chunks[cur].pos,
                           allocated |-> 0, count |-> StatCount(chunks, cur), nchunks |-> Len(chunks), live |-> {},
-                          ma |-> ma, x |-> NoX, fails |-> 0, inaligned |-> FALSE, inclaim |-> FALSE, inprep |-> FALSE]]>>
+                          ma |-> ma, x |-> NoX, fails |-> 0, nparts |-> 0, inaligned |-> FALSE, inclaim |-> FALSE, inprep |-> FALSE]]>>
 
 Init == \E c \in Cfgs : \E k \in Ctors : InitWith(c, k)
 
@@ -375,6 +379,7 @@ Alloc(l, zeroed, fail) ==
           /\ nextId' = IF r.ok THEN nextId + 1 ELSE nextId
           /\ last' = IF r.ok THEN nextId ELSE 0
           /\ order' = IF r.ok THEN Append(order, nextId) ELSE order
+          /\ parts' = parts \cap DOMAIN blocks'
           /\ fails' = IF fail THEN fails + 1 ELSE fails
           /\ UNCHANGED <<cfg, ma, frames, cps, dropped>>
           /\ Step("alloc", [id |-> IF r.ok THEN nextId ELSE 0, sz |-> l.sz, al |-> l.al, zeroed |-> zeroed, fail |-> fail],
@@ -389,6 +394,7 @@ Dealloc(id, wrap) ==
           /\ blocks' = Restrict(blocks, LiveIds \ {id})
           /\ last' = 0
           /\ order' = Without(order, id)
+          /\ parts' = parts \cap DOMAIN blocks'
           /\ UNCHANGED <<cfg, base, cur, ma, frames, cps, nextId, fails, dropped>>
           /\ Step("dealloc", [id |-> id, wrap |-> wrap, sz |-> b.sz, al |-> b.al],
                   Exp("ok", 0, [waslast |-> last = id, wastop |-> Top(order) = id, reclaim |-> reclaims, optout |-> WD(wrap) \/ ~cfg.dealloc]))
@@ -404,6 +410,7 @@ Grow(id, l, zeroed, wrap, fail) ==
              /\ blocks' = IF r.ok THEN [blocks EXCEPT ![id] = [addr |-> r.addr, sz |-> l.sz, al |-> l.al]] ELSE blocks
              /\ last' = IF r.ok THEN id ELSE 0
              /\ order' = IF r.ok THEN Append(Without(order, id), id) ELSE order
+             /\ parts' = parts \cap DOMAIN blocks'
              /\ fails' = IF fail THEN fails + 1 ELSE fails
              /\ frames' = IF r.ok THEN ForgetInFrames(id) ELSE frames
              /\ cps' = IF r.ok THEN StripCps(cps, id) ELSE cps
@@ -426,6 +433,7 @@ Shrink(id, l, wrap, fail) ==
              /\ blocks' = IF r.ok THEN [blocks EXCEPT ![id] = [addr |-> r.addr, sz |-> l.sz, al |-> l.al]] ELSE blocks
              /\ last' = 0
              /\ order' = IF r.ok /\ r.addr # b.addr THEN Append(Without(order, id), id) ELSE order
+             /\ parts' = parts \cap DOMAIN blocks'
              /\ fails' = IF fail THEN fails + 1 ELSE fails
              /\ frames' = IF r.ok THEN ForgetInFrames(id) ELSE frames
              /\ cps' = IF r.ok THEN StripCps(cps, id) ELSE cps
@@ -442,7 +450,7 @@ Reserve(n, fail) ==
     /\ LET r == DoReserve(chunks, cur, base, n, fail)
        IN /\ chunks' = r.chunks /\ cur' = r.cur /\ base' = r.base
           /\ fails' = IF fail THEN fails + 1 ELSE fails
-          /\ UNCHANGED <<cfg, ma, frames, blocks, cps, nextId, order, last, dropped>>
+          /\ UNCHANGED <<cfg, ma, frames, blocks, cps, nextId, order, parts, last, dropped>>
           /\ Step("reserve", [n |-> n, fail |-> fail],
                   Exp(IF r.ok THEN "ok" ELSE "err", 0, [newchunk |-> Len(r.chunks) > Len(chunks)]))
 
@@ -453,7 +461,7 @@ EnterFrame(kind) ==
     /\ frames' = Append(frames, [kind |-> kind, cp |-> Checkpoint, live |-> LiveIds, ma |-> ma, cps |-> cps])
     /\ cps' = <<>>
     /\ last' = 0
-    /\ UNCHANGED <<cfg, base, chunks, cur, ma, blocks, nextId, order, fails, dropped>>
+    /\ UNCHANGED <<cfg, base, chunks, cur, ma, blocks, nextId, order, parts, fails, dropped>>
     /\ Step("enter", [kind |-> kind], Exp("ok", 0, NoX))
 
 \* exit of a scoped() closure / drop of a scope guard; how \in {"return", "unwind"}
@@ -465,6 +473,7 @@ ExitScope(how) ==
           IN /\ chunks' = r.chunks /\ cur' = r.cur
              /\ blocks' = Restrict(blocks, f.live)
              /\ order' = SelectIds(order, f.live)
+             /\ parts' = parts \cap DOMAIN blocks'
              /\ frames' = SubSeq(frames, 1, Depth - 1)
              /\ cps' = f.cps
              /\ ma' = f.ma
@@ -482,6 +491,7 @@ GuardReset ==
           IN /\ chunks' = r.chunks /\ cur' = r.cur
              /\ blocks' = Restrict(blocks, f.live)
              /\ order' = SelectIds(order, f.live)
+             /\ parts' = parts \cap DOMAIN blocks'
              /\ cps' = <<>>
              /\ last' = 0
              /\ UNCHANGED <<cfg, base, ma, frames, nextId, fails, dropped>>
@@ -491,7 +501,7 @@ GuardReset ==
 TakeCheckpoint ==
     /\ Active /\ Free /\ Len(cps) < 2
     /\ cps' = Append(cps, [chunk |-> cur, pos |-> IF cur = 0 THEN 0 ELSE chunks[cur].pos, live |-> LiveIds])
-    /\ UNCHANGED <<cfg, base, chunks, cur, ma, frames, blocks, nextId, order, last, fails, dropped>>
+    /\ UNCHANGED <<cfg, base, chunks, cur, ma, frames, blocks, nextId, order, parts, last, fails, dropped>>
     /\ Step("checkpoint", [k |-> Len(cps) + 1], Exp("ok", 0, NoX))
 
 \* reset_to(checkpoint k of the current frame): later checkpoints die
@@ -502,6 +512,7 @@ ResetTo(k) ==
        IN /\ chunks' = r.chunks /\ cur' = r.cur
           /\ blocks' = Restrict(blocks, cp.live)
           /\ order' = SelectIds(order, cp.live)
+          /\ parts' = parts \cap DOMAIN blocks'
           /\ cps' = SubSeq(cps, 1, k)
           /\ last' = 0
           /\ UNCHANGED <<cfg, base, ma, frames, nextId, fails, dropped>>
@@ -517,7 +528,7 @@ Reset ==
                /\ cur' = 1
                /\ base' = [base EXCEPT !.grants = [i \in 1..Len(base.grants) |->
                               IF \E j \in 1..(n-1) : chunks[j].g = i THEN [base.grants[i] EXCEPT !.live = FALSE] ELSE base.grants[i]]]
-    /\ blocks' = <<>> /\ cps' = <<>> /\ last' = 0 /\ order' = <<>>
+    /\ blocks' = <<>> /\ cps' = <<>> /\ last' = 0 /\ order' = <<>> /\ parts' = {}
     /\ UNCHANGED <<cfg, ma, frames, nextId, fails, dropped>>
     /\ Step("reset", [none |-> TRUE], Exp("ok", 0, [kept |-> IF cur = 0 THEN 0 ELSE chunks[Len(chunks)].start]))
 
@@ -525,7 +536,7 @@ ResetToStart ==
     /\ Active /\ Free /\ Depth = 0
     /\ IF cur = 0 THEN UNCHANGED <<chunks, cur>>
        ELSE /\ chunks' = [chunks EXCEPT ![1].pos = ResetPos(chunks[1])] /\ cur' = 1
-    /\ blocks' = <<>> /\ cps' = <<>> /\ last' = 0 /\ order' = <<>>
+    /\ blocks' = <<>> /\ cps' = <<>> /\ last' = 0 /\ order' = <<>> /\ parts' = {}
     /\ UNCHANGED <<cfg, base, ma, frames, nextId, fails, dropped>>
     /\ Step("reset_to_start", [none |-> TRUE], Exp("ok", 0, NoX))
 
@@ -534,11 +545,11 @@ DropArena ==
     /\ Active /\ Free /\ Depth = 0
     /\ dropped' = TRUE
     /\ base' = [base EXCEPT !.grants = [i \in 1..Len(base.grants) |-> [base.grants[i] EXCEPT !.live = FALSE]]]
-    /\ blocks' = <<>> /\ cps' = <<>> /\ last' = 0 /\ order' = <<>>
+    /\ blocks' = <<>> /\ cps' = <<>> /\ last' = 0 /\ order' = <<>> /\ parts' = {}
     /\ UNCHANGED <<cfg, chunks, cur, ma, frames, nextId, fails>>
     /\ Step("drop", [none |-> TRUE],
             [res |-> "ok", addr |-> 0, cur |-> 0, pos |-> 0, allocated |-> 0, count |-> 0,
-             nchunks |-> 0, live |-> {}, ma |-> ma, x |-> NoX, fails |-> fails, inaligned |-> FALSE, inclaim |-> FALSE, inprep |-> FALSE])
+             nchunks |-> 0, live |-> {}, ma |-> ma, x |-> NoX, fails |-> fails, nparts |-> 0, inaligned |-> FALSE, inclaim |-> FALSE, inprep |-> FALSE])
 
 \* ---- exclusive-borrow collections: prepare / fill / commit (MutBumpVec, MutBumpVecRev, *_mut helpers) ------------
 \* prepare_allocation_range: the largest sub-range of the free space whose ends are multiples of the element alignment;
@@ -599,7 +610,7 @@ EnterPrep(e, rev, c0, fail) ==
                                         failed |-> ~r.ok])
           /\ cps' = <<>> /\ last' = 0
           /\ fails' = IF fail THEN fails + 1 ELSE fails
-          /\ UNCHANGED <<cfg, ma, blocks, nextId, order, dropped>>
+          /\ UNCHANGED <<cfg, ma, blocks, nextId, order, parts, dropped>>
           /\ Step("enter", [kind |-> "prep", esz |-> e.sz, eal |-> e.al, rev |-> rev, cap |-> c0, fail |-> fail],
                   Exp(IF r.ok THEN "ok" ELSE "err", 0, [cap |-> cap, lo |-> r.lo, hi |-> r.hi, newchunk |-> Len(r.chunks) > Len(chunks)]))
 
@@ -618,7 +629,7 @@ PrepPush(fail) ==
                 /\ frames' = [frames EXCEPT ![Depth] = IF r.ok THEN [f EXCEPT !.lo = r.lo, !.hi = r.hi, !.cap = cap2, !.len = f.len + 1]
                                                          ELSE f]
                 /\ fails' = IF fail THEN fails + 1 ELSE fails
-                /\ UNCHANGED <<cfg, ma, blocks, cps, nextId, order, last, dropped>>
+                /\ UNCHANGED <<cfg, ma, blocks, cps, nextId, order, parts, last, dropped>>
                 /\ Step("prep_push", [fail |-> fail, grows |-> grows, ncap |-> ncap],
                         Exp(IF r.ok THEN "ok" ELSE "err", 0,
                             [cap |-> cap2, lo |-> r.lo, hi |-> r.hi, len |-> IF r.ok THEN f.len + 1 ELSE f.len,
@@ -640,6 +651,7 @@ PrepCommit ==
                        ELSE blocks
           /\ nextId' = IF touched /\ n > 0 THEN nextId + 1 ELSE nextId
           /\ order' = IF touched /\ n > 0 THEN Append(order, nextId) ELSE order
+          /\ parts' = parts \cap DOMAIN blocks'
           /\ last' = 0
           /\ frames' = SubSeq(frames, 1, Depth - 1)
           /\ cps' = f.cps
@@ -653,8 +665,32 @@ PrepDrop(how) ==
     /\ frames' = SubSeq(frames, 1, Depth - 1)
     /\ cps' = frames[Depth].cps
     /\ last' = 0
-    /\ UNCHANGED <<cfg, base, chunks, cur, ma, blocks, nextId, order, fails, dropped>>
+    /\ UNCHANGED <<cfg, base, chunks, cur, ma, blocks, nextId, order, parts, fails, dropped>>
     /\ Step("prep_drop", [how |-> how], Exp("ok", 0, NoX))
+
+\* ---- splitting a block (BumpBox<[T]>::split_off, split_at, FixedBumpVec::split_off ...) -----------------------
+\* No allocator call: the caller from now on treats the two halves as separate allocations ("memory blocks can be
+\* split", BumpAllocatorCore docs); both halves keep the alignment of the element type.
+Split(id, at) ==
+    /\ Active /\ Free /\ id \in LiveIds /\ Cardinality(LiveIds) < MaxBlocks
+    /\ LET b == blocks[id] IN
+       /\ at > 0 /\ at < b.sz /\ at % b.al = 0
+       /\ blocks' = [i \in LiveIds \cup {nextId} |->
+                        IF i = id THEN [addr |-> b.addr, sz |-> at, al |-> b.al]
+                        ELSE IF i = nextId THEN [addr |-> b.addr + at, sz |-> b.sz - at, al |-> b.al] ELSE blocks[i]]
+       /\ nextId' = nextId + 1
+       \* the second half lies on the far side in upward arenas, on the near side in downward ones
+       /\ order' = LET k == CHOOSE k \in 1..Len(order) : order[k] = id
+                   IN IF cfg.up THEN SubSeq(order, 1, k) \o <<nextId>> \o SubSeq(order, k + 1, Len(order))
+                               ELSE SubSeq(order, 1, k - 1) \o <<nextId, id>> \o SubSeq(order, k + 1, Len(order))
+       /\ parts' = (parts \cup {id, nextId})
+       /\ last' = 0
+       \* a split inside a frame: both halves die with the frame if the whole would
+       /\ frames' = [i \in 1..Len(frames) |-> [frames[i] EXCEPT !.live = AddSibling(frames[i].live, id, nextId),
+                                                               !.cps = CpsAddSibling(frames[i].cps, id, nextId)]]
+       /\ cps' = CpsAddSibling(cps, id, nextId)
+       /\ UNCHANGED <<cfg, base, chunks, cur, ma, fails, dropped>>
+       /\ Step("split", [id |-> id, at |-> at, nid |-> nextId], Exp("ok", b.addr + at, NoX))
 
 \* ---- requests whose size computation overflows (a layout close to isize::MAX) -----------------------
 \* The fast path fails, the slow path walks the later chunks (resetting them and moving the current chunk forward)
@@ -666,7 +702,7 @@ AllocHuge(al) ==
        IN /\ ~r.ok
           /\ chunks' = r.chunks /\ cur' = r.cur
           /\ last' = 0
-          /\ UNCHANGED <<cfg, base, ma, frames, blocks, cps, nextId, order, fails, dropped>>
+          /\ UNCHANGED <<cfg, base, ma, frames, blocks, cps, nextId, order, parts, fails, dropped>>
           /\ Step("alloc_huge", [al |-> al], Exp("err", 0, NoX))
 
 \* ---- deallocate the most recent allocation and request the same layout again (C13) -------------------
@@ -683,12 +719,13 @@ Realloc(id, wrap) ==
           /\ blocks' = [i \in (LiveIds \ {id}) \cup {nextId} |-> IF i = nextId THEN [addr |-> r.addr, sz |-> b.sz, al |-> b.al] ELSE blocks[i]]
           /\ nextId' = nextId + 1 /\ last' = nextId
           /\ order' = Append(Without(order, id), nextId)
+          /\ parts' = parts \cap DOMAIN blocks'
           /\ UNCHANGED <<cfg, ma, frames, cps, fails, dropped>>
           /\ hist' = hist \o <<
                 [a |-> "dealloc", args |-> [id |-> id, wrap |-> wrap, sz |-> b.sz, al |-> b.al],
                  exp |-> [res |-> "ok", addr |-> 0, cur |-> cur, pos |-> IF cur = 0 THEN 0 ELSE chs1[cur].pos,
                           allocated |-> StatAllocated(chs1, cur), count |-> StatCount(chs1, cur), nchunks |-> Len(chs1),
-                          live |-> LiveIds \ {id}, ma |-> ma, fails |-> fails,
+                          live |-> LiveIds \ {id}, ma |-> ma, fails |-> fails, nparts |-> Cardinality(parts \ {id}),
                           inaligned |-> \E i \in 1..Len(frames) : frames[i].kind \in {"aligned", "saligned"},
                           inclaim |-> \E i \in 1..Len(frames) : frames[i].kind = "claim", inprep |-> FALSE,
                           x |-> [waslast |-> last = id, wastop |-> Top(order) = id,
@@ -706,7 +743,7 @@ EnterClaim ==
     /\ frames' = Append(frames, [kind |-> "claim", cp |-> Checkpoint, live |-> LiveIds, ma |-> ma, cps |-> cps])
     /\ cps' = <<>>
     /\ last' = 0
-    /\ UNCHANGED <<cfg, base, chunks, cur, ma, blocks, nextId, order, fails, dropped>>
+    /\ UNCHANGED <<cfg, base, chunks, cur, ma, blocks, nextId, order, parts, fails, dropped>>
     /\ Step("enter", [kind |-> "claim"], Exp("ok", 0, NoX))
 
 \* guard dropped (normally or by unwinding): the claimed handle continues exactly where the guard stopped
@@ -715,7 +752,7 @@ ExitClaim(how) ==
     /\ frames' = SubSeq(frames, 1, Depth - 1)
     /\ cps' = frames[Depth].cps
     /\ last' = 0
-    /\ UNCHANGED <<cfg, base, chunks, cur, ma, blocks, nextId, order, fails, dropped>>
+    /\ UNCHANGED <<cfg, base, chunks, cur, ma, blocks, nextId, order, parts, fails, dropped>>
     /\ Step("exit", [kind |-> "claim", how |-> how], Exp("ok", 0, NoX))
 
 ClaimLevels == {i \in 1..Len(frames) : frames[i].kind = "claim"}
@@ -735,6 +772,7 @@ ClaimedOp(lvl, op, id, l) ==
                          [] shrinkOk       -> [blocks EXCEPT ![id] = [addr |-> b.addr, sz |-> l.sz, al |-> l.al]]
                          [] OTHER          -> blocks
           /\ order' = IF op = "dealloc" THEN Without(order, id) ELSE order
+          /\ parts' = parts \cap DOMAIN blocks'
           /\ last' = IF op \in {"dealloc", "shrink"} THEN 0 ELSE last
           /\ UNCHANGED <<cfg, base, chunks, cur, ma, frames, cps, nextId, fails, dropped>>
           /\ Step("claimed_op", [lvl |-> lvl, op |-> op, id |-> id, sz |-> l.sz, al |-> l.al, osz |-> b.sz, oal |-> b.al],
@@ -753,7 +791,7 @@ EnterAligned(n, scoped) ==
     \* raising: the position is aligned before the stricter type is exposed (a dummy chunk is always aligned)
     /\ chunks' = IF n > ma /\ cur # 0 THEN [chunks EXCEPT ![cur].pos = AlignPos(@, n)] ELSE chunks
     /\ last' = 0
-    /\ UNCHANGED <<cfg, base, cur, blocks, nextId, order, fails, dropped>>
+    /\ UNCHANGED <<cfg, base, cur, blocks, nextId, order, parts, fails, dropped>>
     /\ Step("enter", [kind |-> IF scoped THEN "saligned" ELSE "aligned", n |-> n], Exp("ok", 0, NoX))
 
 ExitAligned(how) ==
@@ -765,9 +803,10 @@ ExitAligned(how) ==
                IN /\ chunks' = r.chunks /\ cur' = r.cur
                   /\ blocks' = Restrict(blocks, f.live)
                   /\ order' = SelectIds(order, f.live)
+                  /\ parts' = parts \cap DOMAIN blocks'
           ELSE \* lowered alignment: the guard re-aligns the then-current chunk to the outer alignment
                /\ chunks' = IF ma < f.ma /\ cur # 0 THEN [chunks EXCEPT ![cur].pos = AlignPos(@, f.ma)] ELSE chunks
-               /\ UNCHANGED <<cur, blocks, order>>
+               /\ UNCHANGED <<cur, blocks, order, parts>>
        /\ frames' = SubSeq(frames, 1, Depth - 1)
        /\ cps' = f.cps
        /\ ma' = f.ma
